@@ -2,7 +2,7 @@
    (on Reactive/Interp.v with fx = true; proofs in Reactive/Own.v, DisposeFacts.v, Isolation.v). *)
 From stdpp Require Import gmap list.
 From Coq Require Import ZArith.
-From Syc Require Import Reactive.Syntax Reactive.Interp Reactive.Show Reactive.WF Reactive.Own Reactive.DisposeFacts Reactive.Isolation.
+From Syc Require Import Reactive.Syntax Reactive.Interp Reactive.Show Reactive.Frame Reactive.WF Reactive.Own Reactive.DisposeFacts Reactive.Isolation Reactive.RerunGuard.
 
 (* after ANY history (program) that completes: the graph is well formed, ownership is a tree (children lists and owner
    pointers mirror each other, every live node reaches the root through live owners: nothing is orphaned), and per
@@ -40,3 +40,39 @@ Theorem C04_disposed_node_stays_clean : forall f id s nd s1, WF s -> nodes s !! 
   dispose_children true f id (unsubscribe true id s) = Ok tt s1 ->
   Jc id (unsubscribe true id s) /\ Jc id s1 /\ (forall this, nodes s1 !! id = Some this -> n_deps this = []).
 Proof. exact disposed_node_stays_clean. Qed.
+
+(* a memo / effect that a cleanup callback of its previous run has disposed (itself, or a scope that owns it) is not run
+   again: [run_node_update] ends in the state [s4] that [dispose_children] returned -- no callback, no link, no mark.
+   The hypotheses only name the intermediate states of [run_node_update]: the node is alive with its callback and value
+   in place ([loop], the only caller, checks the first; WF gives the other two for a dirty node), [s2] is the state after
+   the old dependency edges are removed, [s4] the state after the cleanups of the previous run. *)
+Theorem C04_disposed_by_cleanup_not_rerun : forall f n s nd c old s2 s4,
+  nodes s !! n = Some nd -> n_cb nd = Some c -> n_value nd = Some old ->
+  unlink_deps n (n_deps nd) (upd n (nd_deps (fun _ => [])) s) = Ok tt s2 ->
+  dispose_children true f n (upd n (fun x => nd_cb None (nd_value None x)) s2) = Ok tt s4 ->
+  alive n s4 = false ->
+  run_node_update true (S f) n s = Ok tt s4.
+Proof. exact run_node_update_disposed_by_cleanup. Qed.
+
+(* in terms of the log: the callback's [EvRun] is emitted by this update iff the node survived those cleanups *)
+Theorem C04_rerun_iff_survived : forall f n s nd c old s2 s4,
+  nodes s !! n = Some nd -> n_cb nd = Some c -> n_value nd = Some old ->
+  unlink_deps n (n_deps nd) (upd n (nd_deps (fun _ => [])) s) = Ok tt s2 ->
+  dispose_children true (S f) n (upd n (fun x => nd_cb None (nd_value None x)) s2) = Ok tt s4 ->
+  let r := run_node_update true (S (S f)) n s in
+  (alive n s4 = false -> r = Ok tt s4 /\ runs (c_name c) (log (st_of r)) = runs (c_name c) (log s4)) /\
+  (alive n s4 = true -> (runs (c_name c) (log (st_of r)) > runs (c_name c) (log s4))%nat).
+Proof. exact destroyed_computation_not_rerun. Qed.
+
+(* an effect whose cleanup disposes the effect itself, then two writes to the signal it read: one run, at creation *)
+Example C04_self_disposing_effect_runs_once :
+  rg_events (exec true 400 root_env
+    [SSignal 1 (Lit 0);
+     SEffect 3 (Body None [SCurScope 4; SOnCleanup 1 [SDispose 4]] (Get 1));
+     SSet 1 (Lit 1);
+     SSet 1 (Lit 2)] init_state)
+  = Some [EvRun 3; EvReg 1; EvRead 1 0 true; EvEff 3 0; EvEnd 3; EvCleanup 1].
+Proof. vm_compute. reflexivity. Qed.
+
+Print Assumptions C04_disposed_by_cleanup_not_rerun.
+Print Assumptions C04_rerun_iff_survived.
